@@ -14,6 +14,7 @@ import (
 
 	"github.com/cockroachdb/apd/v3"
 	"github.com/dolthub/go-mysql-server/sql"
+	"github.com/dolthub/go-mysql-server/sql/analyzer"
 	"github.com/dolthub/go-mysql-server/sql/types"
 
 	"verifharness/lib"
@@ -438,7 +439,7 @@ func runBuilder(c *lib.Ctx, w *world, cs caseT) {
 	if len(rs) > 1 {
 		c.Count("builder_multiple_ranges")
 	}
-	term := lib.CoqTuple(fmt.Sprintf("%d%%nat", cs.K), lib.CoqListOf(cs.Ops, coqBop), lib.CoqList(rstr))
+	term := fmt.Sprintf("CB %d%%nat %s %s", cs.K, lib.CoqListOf(cs.Ops, coqBop), lib.CoqList(rstr))
 	id := c.Case(term, cs, fmt.Sprint(cs.K, cs.Ops))
 	c.PredChecked()
 	// candidate values per column: NULL, int32 bounds, 0, and the neighbourhood of every literal used on it
@@ -505,6 +506,95 @@ func runBuilder(c *lib.Ctx, w *world, cs caseT) {
 		return true
 	}
 	rec(0, nil)
+}
+
+
+// ---------- the fast path of a lone IN filter on a one-column INT index ----------
+func genInFast(r *lib.RNG) caseT {
+	n := r.Range(1, 4)
+	o := opT{Op: "in"}
+	for j := 0; j < n; j++ {
+		var l opT
+		l.N, l.S, l.Dec = genLit(r)
+		if r.Chance(1, 3) {
+			l.N, l.S, l.Dec = int64(r.Intn(6)), 0, false
+		}
+		o.Lits = append(o.Lits, l)
+	}
+	return caseT{Kind: "infast", Ops: []opT{o}}
+}
+
+func runInFast(c *lib.Ctx, w *world, cs caseT) {
+	o := cs.Ops[0]
+	vals := make([]any, len(o.Lits))
+	for i, l := range o.Lits {
+		vals[i], _ = litKey(l)
+	}
+	rs, ok := analyzer.VerifC03InValsToMySQLRangeColl(w.s.Ctx, vals, types.Int32)
+	c.Count("kind_infast")
+	if !ok {
+		id := c.CaseNoModel(cs, "")
+		c.PredFail(id, "infast/declined", fmt.Sprintf("fast path declined %+v", o.Lits), cs)
+		return
+	}
+	obs := "None"
+	if rs != nil {
+		rstr := make([]string, len(rs))
+		for i, r := range rs {
+			rstr[i] = "[(mkR " + coqCut(r[0].LowerBound) + " " + coqCut(r[0].UpperBound) + ")]"
+		}
+		obs = "(Some " + lib.CoqList(rstr) + ")"
+		c.Count("infast_some_ranges")
+	} else {
+		c.Count("infast_nil")
+	}
+	id := c.Case(fmt.Sprintf("CIn %s %s", lib.CoqListOf(o.Lits, coqLit), obs), cs, fmt.Sprint("infast", o.Lits))
+	c.PredChecked()
+	// candidate values: NULL, bounds, neighbourhood of every key
+	set := map[int64]bool{-2147483648: true, 2147483647: true, 0: true}
+	for _, l := range o.Lits {
+		q := l.N / pow10(l.S)
+		for d := int64(-2); d <= 2; d++ {
+			if v := q + d; v >= -2147483648 && v <= 2147483647 {
+				set[v] = true
+			}
+		}
+	}
+	sig := opSig(o)
+	if rs == nil {
+		// nil means "no ranges": the caller must not read it as "no restriction". The list matches nothing exactly when
+		// no key is an in-range integer; a nil for a satisfiable list would lose rows outright.
+		for v := range set {
+			v := v
+			if opTrue(o, &v) {
+				c.PredFail(id, "infast/nil-for-satisfiable-list/"+sig, fmt.Sprintf("IN %+v: nil although %d matches", o.Lits, v), cs)
+				return
+			}
+		}
+		return
+	}
+	check := func(v *int64) bool {
+		if got, want := rangesHaveT(rs, []*int64{v}), opTrue(o, v); got != want {
+			c.PredFail(id, "infast/ranges-differ-from-in-list/"+sig, fmt.Sprintf("IN %+v: ranges %v, value %v: in ranges = %v, IN TRUE = %v", o.Lits, rs, v, got, want), cs)
+			return false
+		}
+		return true
+	}
+	if !check(nil) {
+		return
+	}
+	for v := range set {
+		v := v
+		if !check(&v) {
+			return
+		}
+	}
+	for i := 0; i+1 < len(rs); i++ {
+		if toI64(sql.GetMySQLRangeCutKey(rs[i][0].LowerBound)) >= toI64(sql.GetMySQLRangeCutKey(rs[i+1][0].LowerBound)) {
+			c.PredFail(id, "infast/unsorted-or-duplicate/"+sig, fmt.Sprintf("IN %+v: ranges %v", o.Lits, rs), cs)
+			return
+		}
+	}
 }
 
 // ---------- engine level ----------
@@ -830,6 +920,8 @@ func main() {
 					runBuilder(c, w, cs)
 				case "boxes":
 					runBoxes(c, w, cs)
+				case "infast":
+					runInFast(c, w, cs)
 				case "dml":
 					runDML(c, w, cs)
 				default:
@@ -870,6 +962,8 @@ func main() {
 			{Kind: "engine", Where: "a IS NULL OR NOT (a > 2)"},
 			{Kind: "engine", Where: "(b <= 3 OR b IS NULL) AND c IS NOT NULL"},
 			{Kind: "engine", Where: "a < 2 OR a IS NULL"},
+			{Kind: "infast", Ops: []opT{{Op: "in", Lits: []opT{{N: 15, S: 1, Dec: true}}}}},
+			{Kind: "infast", Ops: []opT{{Op: "in", Lits: []opT{{N: 2147483648}, {N: 3}, {N: 300, S: 2, Dec: true}, {N: 1}}}}},
 			{Kind: "boxes", Where: "(a BETWEEN 1 AND 10 AND b = 5) OR (a BETWEEN 3 AND 6 AND b BETWEEN 1 AND 9)"},
 			{Kind: "boxes", Where: "(a BETWEEN 3 AND 6 AND b BETWEEN 1 AND 9) OR (a BETWEEN 1 AND 10 AND b = 5) OR (a IS NULL)"},
 			{Kind: "boxes", Where: "(a = 2 AND b < 4) OR (a BETWEEN 0 AND 5 AND b BETWEEN 2 AND 3) OR (a >= 4 AND b >= 3)"},
@@ -882,6 +976,8 @@ func main() {
 		for i := len(corpus); i < c.N; i++ {
 			r := c.R.Fork()
 			switch k := r.Intn(10); {
+			case k < 1:
+				run(genInFast(r))
 			case k < 4:
 				run(genBuilder(r))
 			case k < 7:
